@@ -6,7 +6,22 @@ import json, os, sys
 sys.path.insert(0, os.path.dirname(os.path.dirname(os.path.abspath(__file__))))
 from psv import core
 core.NORMALIZE_FOLD = False
+core.NORMALIZE_NEW_LOCALS = False
 P = core.load(tier="thorough")
 inv = sorted({"%s:%s" % (os.path.basename(f.file), f.name) for v in P.variants.values() for f in v.values() if f.file.startswith(core.REPO)})
-json.dump(inv, open(os.path.join(core.VERIF, "psv", "inventory.json"), "w"), indent=0)
-print(len(inv), "functions")
+# locals (file:function:name) and functions that contain a switch: what the rules' literal shapes were written against
+loc = set()
+sw = set()
+for v in P.variants.values():
+    for f in v.values():
+        if not f.file.startswith(core.REPO):
+            continue
+        for n in f.nodes:
+            if n["k"] == "DeclStmt":
+                for d in n.get("decls", []):
+                    if d.get("dk") == "Var":
+                        loc.add("%s:%s:%s" % (os.path.basename(f.file), f.name, d["name"]))
+            elif n["k"] == "SwitchStmt":
+                sw.add("%s:%s" % (os.path.basename(f.file), f.name))
+json.dump(dict(functions=inv, locals=sorted(loc), switches=sorted(sw)), open(os.path.join(core.VERIF, "psv", "inventory.json"), "w"), indent=0)
+print(len(inv), "functions,", len(loc), "locals,", len(sw), "functions with a switch")
